@@ -31,13 +31,16 @@ def cases(ctx, budget):
     return out
 
 
-def check_one(ctx, data, kinds, m, chunks, lines, pending):
+def check_one(ctx, data, kinds, m, chunks, lines, pending, opts='random'):
     typed = {10000: [], 13120: [], 9: []}
     as_ints = bool(chunks) and all(len(c) == 1 for c in chunks) and (len(data) % 2 == 0)
-    calls, flat, err, cb = dc.run_decoder(chunks, m, use_callback=True, as_ints=as_ints, typed_callbacks=typed)
+    if opts == 'random':
+        opts = dc.decoder_options(ctx.rng) if ctx.rng.random() < 0.7 else None
+    calls, flat, err, cb = dc.run_decoder(chunks, m, use_callback=True, as_ints=as_ints, typed_callbacks=typed, opts=opts)
     if as_ints:
         ctx.count('fed_as_single_ints')
-    replay = {'stream': data.hex(), 'tokens': kinds, 'max_payload': m, 'chunks': [c.hex() for c in chunks]}
+    ctx.count('warn_on_error_%s' % (opts or {}).get('warn_on_error', 'none'))
+    replay = {'stream': data.hex(), 'tokens': kinds, 'max_payload': m, 'chunks': [c.hex() for c in chunks], 'options': opts}
     if err is not None:
         ctx.violation('C04/decoder-raised', 'on_data raised %s' % err, replay)
         return
@@ -89,7 +92,7 @@ def run(ctx, budget):
     for r in fv.corpus('C04'):          # regression corpus first
         if 'stream' in r and 'chunks' in r:
             check_one(ctx, bytes.fromhex(r['stream']), r.get('tokens', 'corpus'), r.get('max_payload', 1 << 24),
-                      [bytes.fromhex(c) for c in r['chunks']], lines, pending)
+                      [bytes.fromhex(c) for c in r['chunks']], lines, pending, opts=r.get('options'))
             ctx.count('corpus_cases')
     allcases = cases(ctx, budget)
     for data, kinds in allcases:
@@ -148,7 +151,7 @@ def replay(ctx, path):
     data = bytes.fromhex(r['stream'])
     chunks = [bytes.fromhex(c) for c in r['chunks']]
     lines, pending = [], []
-    check_one(ctx, data, r.get('tokens', ''), r['max_payload'], chunks, lines, pending)
+    check_one(ctx, data, r.get('tokens', ''), r['max_payload'], chunks, lines, pending, opts=r.get('options'))
     outs = ctx.driver(lines)
     for i, p in enumerate(pending):
         judge(ctx, *p, outs[2 * i], outs[2 * i + 1])
